@@ -22,7 +22,7 @@ impl Payload for Doc {
     }
 }
 fn text(letter: char, tok: u32, lines: usize, k: usize) -> String {
-    if tok % 7 == 6 {
+    if tok % 7 == 6 || tok == 2 {
         // a payload that is itself a small tree (a chain of `lines` nodes) drawn by debug_pretty_print of ANOTHER arena:
         // printing re-enters the printer while the outer printer is in the middle of a node
         return match k {
@@ -106,7 +106,7 @@ impl Doc {
     /// the rendering reaches the formatter in different fragmentations: as one string, line by line with
     /// separate newlines, or character by character
     fn emit(&self, f: &mut fmt::Formatter<'_>, letter: char) -> fmt::Result {
-        if self.tok % 7 == 6 && ODD.load(std::sync::atomic::Ordering::Relaxed) == 0 {
+        if (self.tok % 7 == 6 || self.tok == 2) && ODD.load(std::sync::atomic::Ordering::Relaxed) == 0 {
             let mut inner: indextree::Arena<String> = indextree::Arena::new();
             let root = inner.new_node(format!("{}{}n", letter, self.tok));
             let mut last = root;
